@@ -269,4 +269,37 @@ example :
       [.update .holding 0 2, .update .holding 1 2] = .ok [1, 2] := by
   decide
 
+/-! ### one database, successive transactions -/
+
+/-- **transactions_compose**: the database handle handed to a transaction callback stands for
+    the unit's one database: what a transaction leaves is what the next one finds, so two
+    successive transactions give exactly the results (and the final contents) of the single
+    transaction that makes all the calls -/
+theorem transactions_compose (db : Db) (a b : List DbOp) :
+    db.run (a ++ b) = (((db.run a).1.run b).1, (db.run a).2 ++ ((db.run a).1.run b).2) := by
+  induction a generalizing db with
+  | nil => simp [Db.run]
+  | cons op ops ih => simp [Db.run, ih]
+
+/-- **transaction_boundaries_invisible**: for any number of successive transactions through one
+    server handle, where the boundaries fall changes nothing -/
+theorem transaction_boundaries_invisible (db : Db) (txs : List (List DbOp)) :
+    db.runAll txs = db.run txs.flatten := by
+  induction txs generalizing db with
+  | nil => rfl
+  | cons tx rest ih =>
+    simp only [Db.runAll, List.flatten_cons, transactions_compose, ih]
+
+/-- the abstract map agrees: successive transactions refine the map run over all the calls -/
+theorem successive_transactions_refine_map (db : Db) (txs : List (List DbOp)) :
+    (db.runAll txs).2 = (db.abs.run txs.flatten).2 ∧ (db.runAll txs).1.abs = (db.abs.run txs.flatten).1 := by
+  rw [transaction_boundaries_invisible]
+  exact Db.run_refines db _
+
+/-- an add in one transaction, a get / update in the next -/
+example :
+    (({} : Db).runAll [[.add .holding 1 7], [.update .holding 1 9, .get .holding 1], [], [.delete .holding 1]]).2 =
+      [.flag true, .flag true, .val 9, .flag true] := by
+  decide
+
 end Rodbus.C19
